@@ -259,9 +259,10 @@ class World(object):
         self.tm.remove_tile_coords([COORD[t]])
         with self.tm.session():
             self.tm.load_tile_coords([COORD[t]])
+        self._fix_mtimes()
         if self.uplog:
             self.ver += 1
-        self._fix_mtimes()
+            self.clock += 1          # time moves on when tiles are written
 
     # ---- requests ---------------------------------------------------------------------------------
     def get(self, flavour, t, inm=None, ims=None, fail=False, sclass=1):
@@ -275,9 +276,10 @@ class World(object):
         r = self.app.get(_url(flavour, self.path, COORD[t]), headers=headers, expect_errors=True)
         up = 'none' if not self.uplog else ('fail' if fail else 'ok')
         ver_used = self.ver
+        self._fix_mtimes()
         if up == 'ok':
             self.ver += 1
-        self._fix_mtimes()
+            self.clock += 1          # time moves on when tiles are written
         lm = r.headers.get('Last-Modified')
         if lm is not None:
             p = parsedate(lm)
@@ -337,8 +339,8 @@ class World(object):
 FIXED = {'CopyInfo': True, 'ResetStamp': True, 'Branch': frozenset(FLAVOURS)}
 
 
-def consts(backend, path, flags, tiles=('t1', 't2'), flavours=FLAVOURS, maxclock=4, sizes=(1, 2)):
-    return dict(Tiles=set(tiles), MetaOf={t: set(META[t]) & set(tiles) for t in tiles}, Flavours=set(flavours),
+def consts(backend, path, flags, tiles=('t1', 't2'), flavours=FLAVOURS, maxclock=4, sizes=(1, 2), lenient=True):
+    return dict(Lenient=lenient, Tiles=set(tiles), MetaOf={t: set(META[t]) & set(tiles) for t in tiles}, Flavours=set(flavours),
                 Backend=backend, Path=path, CopyInfo=bool(flags['CopyInfo']), ResetStamp=bool(flags['ResetStamp']),
                 BranchFlavours=set(flags['Branch']), MaxClock=maxclock, Sizes=set(sizes))
 
@@ -348,9 +350,9 @@ def flags_text(flags):
 
 
 def exhaustive(ctx, name, backend, path, flags, maxver, maxclock, flavours=FLAVOURS, tiles=('t1', 't2'), workers=8,
-               coverage=False, timeout=1500):
+               coverage=False, timeout=1500, lenient=True):
     d = ctx.sub('mc-' + name)
-    mp, cp = tlc.write_mc(d, 'HttpCond', 'MC_HttpCond', consts(backend, path, flags, tiles, flavours, maxclock),
+    mp, cp = tlc.write_mc(d, 'HttpCond', 'MC_HttpCond', consts(backend, path, flags, tiles, flavours, maxclock, lenient=lenient),
                           invariants=['TypeOK'], properties=['Always' + p for p in PROPS], constraint='MCBound',
                           view='core', extra_defs='MCBound == ver <= %d' % maxver)
     return tlc.run(mp, cp, d, workers=workers, timeout=timeout, coverage=coverage)
@@ -505,7 +507,8 @@ def attribute(flags, path, phase, flavour):
 # (D) which model variant is this tree?  counterexamples of the unrepaired variants, replayed
 # ---------------------------------------------------------------------------------------------------------
 def counterexample(ctx, name, backend, path, flags, flavours):
-    r = exhaustive(ctx, 'cx-' + name, backend, path, flags, maxver=3, maxclock=4, flavours=flavours, workers=1, timeout=600)
+    r = exhaustive(ctx, 'cx-' + name, backend, path, flags, maxver=3, maxclock=5, flavours=flavours, workers=1, timeout=600,
+                   lenient=False)
     if not r.violated or not r.trace:
         raise tlc.MachineryError('the model variant %s (%s/%s) is expected to violate the property: %r\n%s' % (
             flags_text(flags), backend, path, r, r.out[-1200:]))
@@ -592,7 +595,7 @@ def _flags_from_json(j):
 # ---------------------------------------------------------------------------------------------------------
 def simulate(ctx, backend, path, flags, num, depth):
     d = ctx.sub('sim-%s-%s' % (backend, path))
-    mp, cp = tlc.write_mc(d, 'HttpCond', 'MC_Sim', consts(backend, path, flags, maxclock=40), spec='SimSpec')
+    mp, cp = tlc.write_mc(d, 'HttpCond', 'MC_Sim', consts(backend, path, flags, maxclock=1000, lenient=False), spec='SimSpec')
     prefix = os.path.join(d, 'beh')
     r = tlc.run(mp, cp, d, workers=1, simulate='file=%s,num=%d' % (prefix, num), depth=depth,
                 seed=ctx.seed * 7 + 13 + PATHS.index(path) * 3 + BACKENDS.index(backend), coverage=False, timeout=900)
@@ -830,14 +833,14 @@ def model_phase(ctx, flags_by):
     thorough = ctx.tier == 'thorough'
     tlc.sany(SPEC)
     # vacuity guard: every action of the model is taken
-    r = exhaustive(ctx, 'coverage', 'file', 'meta', FIXED, maxver=2, maxclock=3, workers=2, coverage=True)
+    r = exhaustive(ctx, 'coverage', 'file', 'meta', FIXED, maxver=2, maxclock=4, workers=2, coverage=True)
     if not r.ok:
         raise tlc.MachineryError('HttpCond.tla (coverage run): %r\n%s' % (r, r.out[-1500:]))
     taken = {m.group(1): int(m.group(3)) for m in re.finditer(r'(?m)^<(\w+) line [^>]*>: (\d+):(\d+)', r.out)}
     for a in ('DoGetCached', 'DoGetCreate', 'DoGetError', 'Rewrite', 'Expire', 'Tick'):
         if taken.get(a, 0) == 0:
             raise tlc.MachineryError('vacuity: action %s has coverage 0 (%s)' % (a, taken))
-    maxver, maxclock = (4, 6) if thorough else (3, 4)
+    maxver, maxclock = (4, 8) if thorough else (3, 6)
     jobs, names = [], []
     for backend in BACKENDS:
         for path in ('single', 'meta'):
@@ -845,7 +848,7 @@ def model_phase(ctx, flags_by):
             jobs.append(lambda b=backend, p=path: exhaustive(ctx, 'fixed-%s-%s' % (b, p), b, p, FIXED, maxver, maxclock, workers=4))
     if thorough:
         names.append(('file', 'meta', FIXED))
-        jobs.append(lambda: exhaustive(ctx, 'fixed-3tiles', 'file', 'meta', FIXED, 3, 4, tiles=('t1', 't2', 't3'), workers=4))
+        jobs.append(lambda: exhaustive(ctx, 'fixed-3tiles', 'file', 'meta', FIXED, 3, 6, tiles=('t1', 't2', 't3'), workers=4))
     for (backend, path, flags), r in zip(names, parallel(jobs)):
         ctx.log('HttpCond %s/%s (%s): %r' % (backend, path, flags_text(flags), r))
         if r.violated:
